@@ -89,6 +89,18 @@ DimStats check_dimension(vf::Ctx& c, hep::vegas_pdf<T> const& oldp, hep::vegas_p
     std::size_t const B = oldp.bins();
     std::vector<LD> d(B), s(B);
     for (std::size_t b = 0; b != B; ++b) { d[b] = data[i * B + b]; }
+    {
+        // only ratios of the data matter: for T = long double the model has no wider type to sum in, so data near the
+        // largest finite number are scaled by a power of two first (exact)
+        LD mx = 0;
+        for (auto v : d) { mx = std::max(mx, v); }
+        if (mx > std::numeric_limits<LD>::max() / (8 * static_cast<LD>(B)))
+        {
+            int e = 0;
+            (void) std::frexp(mx, &e);
+            for (auto& v : d) { v = std::ldexp(v, -e); }
+        }
+    }
     s[0] = (d[0] + d[1]) / 2;
     for (std::size_t b = 1; b + 1 < B; ++b) { s[b] = (d[b - 1] + d[b] + d[b + 1]) / 3; }
     s[B - 1] = (d[B - 2] + d[B - 1]) / 2;
